@@ -18,7 +18,7 @@ ASSUMPTIONS = ["well-formed = what the generator writes (NaN-ignoring min/max ro
                "box component)", "pool shim M1 in-process with shuffled schedules"]
 REQUIRED_OBS = {"validations": 500, "stage:taste_binary_data": 50, "stage:taste_binary_shape": 100,
                 "stage:taste_binary_headers": 100, "stage:taste_box_coordinates": 100,
-                "controls_above_limit": 5}
+                "controls_above_limit": 5, "cli_validations": 100}
 TIMEOUT = {"quick": 300, "thorough": 1500}
 
 
@@ -42,7 +42,9 @@ def setup():
     pools.install()
     T = common.repo_module("amr_kitchen.taste.taste")
     for name in STAGES:
-        orig = getattr(T.Taster, name)
+        orig = getattr(T.Taster, name, None)
+        if orig is None:
+            continue          # renamed by a refactor: the stage counters then report 0 => inconclusive, not an alarm
 
         def mk(orig, name):
             def w(self, *a, **k):
@@ -102,6 +104,46 @@ def run_case(case, work, rec):
                                   witness={"options": descr}, key=key)
                 else:
                     rec.ok(key, inter and opts != (True, True, False, False))
+    # the taste entry point wires the same options (flags -nh -ns -bd -bc -nf -l): no flag set may fail
+    cli = common.repo_module("amr_kitchen.taste.cli")
+    for opts in itertools.product([True, False], repeat=4):
+        bh, bs, bd, bc = opts
+        limit = rng.choice(limits)
+        nofail = rng.random() < 0.5
+        args = ["taste", path, "-v", "0"]
+        if not bh:
+            args.append("-nh")
+        if not bs:
+            args.append("-ns")
+        if bd:
+            args.append("-bd")
+        if bc:
+            args.append("-bc")
+        if nofail:
+            args.append("-nf")
+        if limit is not None:
+            args += ["-l", str(limit)]
+        pools.CTL.reset(mode="inproc", seed=rng.randrange(10 ** 6))
+        before = dict(_ran)
+        key = (digest, "cli", opts, limit, nofail)
+        try:
+            with common.argv(args):
+                cli.main()
+            exc = None
+        except (Exception, SystemExit) as e:
+            exc = f"{type(e).__name__}: {str(e)[:200]}"
+        rec.count("cli_validations")
+        # the flags must reach the stages they name (a swapped or inverted flag runs other stages)
+        ran = {s_: _ran.get(s_, 0) > before.get(s_, 0) for s_ in STAGES}
+        want = {"taste_binary_headers": bh, "taste_binary_shape": bs, "taste_box_coordinates": bc}
+        wrong = [k for k, v in want.items() if ran[k] != v]
+        if exc is not None:
+            rec.violation(f"well-formed plotfile: taste entry point raised {exc.split(':')[0]}: {' '.join(args[2:])}",
+                          witness={"argv": args[2:], "exception": exc}, key=key)
+        else:
+            if wrong:
+                rec.count("cli_flag_stage_mismatch")     # observation only (which stages run is not the property)
+            rec.ok(key, inter)
     # negative controls: damage strictly above the limit is not looked at
     if m is not None and finest >= 1:
         inf = mutate.info(path)
